@@ -96,6 +96,15 @@ static void gen_pair(Rng& rng, int cls, uint64_t n, std::vector<int64_t>& a, std
     }
     return;
   }
+  if (cls == 8) {
+    // OUTSIDE the numeric contract (C01 verdict is "na"): magnitudes at and beyond 2^51.  The call is still a call:
+    // sources, prepared objects, module and tables must come out unchanged (C18), and nothing may fault (C11)
+    static const int64_t BIGS[] = {(int64_t)1 << 51, -((int64_t)1 << 51) - 1, (int64_t)1 << 52, INT64_MAX, INT64_MIN, (int64_t)1 << 62, ((int64_t)1 << 51) - 1, -((int64_t)1 << 51)};
+    for (uint64_t i = 0; i < n; i++) { a[i] = rng.sbits(8); b[i] = rng.sbits(8); }
+    a[rng.below(n)] = BIGS[rng.below(8)];
+    b[rng.below(n)] = BIGS[rng.below(8)];
+    return;
+  }
   if (cls == 7) {
     // every coefficient of b is a multiple of 2^s, s in {32, 33, 40} (low words all zero); a sparse and small
     int s = (int[]){32, 33, 40}[rng.below(3)];
@@ -161,7 +170,7 @@ STREAM(md_prod) {
   if (thorough) { dims.push_back(16384); dims.push_back(65536); } else dims.push_back(8192);  // m = 4096: the recursive FFT path
   for (uint64_t n : dims)
     for (int mask = 0; mask < 2; mask++)
-      for (int cls = 0; cls < 8; cls++) {
+      for (int cls = 0; cls < 9; cls++) {
         if (n > 4096 && cls != 4 && cls != 6 && cls != 7) continue;  // the schoolbook oracle is O(nnz(a)·N): only sparse a at the largest dimensions
         MODULE* mod = get_module(n, 0, mask);
         // operand sizes chosen so that min(|a|_1 |b|_inf, …) stays below 2^52: |a| < 2^abits dense
@@ -394,7 +403,7 @@ STREAM(md_ntt) {
   std::vector<uint64_t> dims = thorough ? std::vector<uint64_t>{1, 2, 4, 8, 16, 64, 256, 1024, 4096, 65536} : std::vector<uint64_t>{1, 2, 4, 8, 64, 1024, 4096};
   for (uint64_t n : dims)
     for (int cls = 0; cls < 4; cls++)
-      for (int variant = 0; variant < 2; variant++) {
+      for (int variant = 0; variant < 3; variant++) {
         MODULE* mod = get_module(n, 1, 0);
         uint64_t a_size = rng.below(4), dsz = rng.below(4), rsz = rng.below(5), a_sl = n + rng.below(3);
         std::vector<int64_t> av((a_size ? a_size : 1) * a_sl);
@@ -412,8 +421,15 @@ STREAM(md_ntt) {
         if (variant == 0) {
           vec_znx_idft(mod, (VEC_ZNX_BIG*)big.p, rsz, (VEC_ZNX_DFT*)dft.p, dsz, tmp.p);
           if (fnv(dft.p, dft.n) != dh && verdict == "ok") verdict = "FAIL C18 ntt120 vec_znx_idft modified its DFT source";
-        } else {
+        } else if (variant == 1) {
           vec_znx_idft_tmp_a(mod, (VEC_ZNX_BIG*)big.p, rsz, (VEC_ZNX_DFT*)dft.p, dsz);
+        } else {
+          // in place (res == a_dft): limb i of the result (16n bytes) lands on DFT limbs that were consumed before
+          size_t need = std::max((size_t)(n * 32 * dsz), (size_t)(n * 16 * rsz));
+          Buf io(need, 0, rng, 2);
+          memcpy(io.p, dft.p, dft.n);
+          vec_znx_idft(mod, (VEC_ZNX_BIG*)io.p, rsz, (VEC_ZNX_DFT*)io.p, dsz, tmp.p);
+          memcpy(big.p, io.p, big.n);
         }
         if (!nsnap.same(mod) && verdict == "ok") verdict = "FAIL C18 an NTT120 transform modified the module or one of its tables (tables must be immutable after creation)";
         const __int128* r = big.as<__int128>();
@@ -424,7 +440,7 @@ STREAM(md_ntt) {
             memcpy(&g, (const uint8_t*)r + (i * n + j) * 16, 16);
             if (g != e) {
               char buf[200];
-              snprintf(buf, sizeof buf, "FAIL C03 ntt120 dft->idft n=%" PRIu64 " limb %" PRIu64 " coeff %" PRIu64 " expected %" PRId64 " (variant %d)", n, i, j, (int64_t)e, variant);
+              snprintf(buf, sizeof buf, "FAIL %s ntt120 dft->idft n=%" PRIu64 " limb %" PRIu64 " coeff %" PRIu64 " expected %" PRId64 " (variant %d%s)", variant == 2 ? "C13" : "C03", n, i, j, (int64_t)e, variant, variant == 2 ? ": in place, res == a_dft" : "");
               verdict = buf;
               break;
             }
